@@ -154,14 +154,17 @@ def gen_rule(budget):
                         yield M.rule('r', ([bg] if bg else []) + scs, tags=tags, desc=desc, pre=noise), 1 + c0 + c1 + c2 + c3 + c4
 
 
-def gen_feature(budget):
-    """yields (feature model or None, trailer)"""
-    yield None, []
-    for n in ([C('#n')], [B('')], [B(''), C('#n')]):
-        if len(n) <= budget:
-            yield None, n
+def gen_feature(budget, shard=0, nshards=1, inner=0, ninner=1):
+    """yields (feature model or None, trailer).  Sharding is on the outer loops (language x noise x tags x description), so a
+    shard does not pay for enumerating the others' documents."""
+    if shard == 0 and inner == 0:
+        yield None, []
+        for n in ([C('#n')], [B('')], [B(''), C('#n')]):
+            if len(n) <= budget:
+                yield None, n
     if budget < 1:
         return
+    outer = 0
     for lang in (None, 'fr'):
         c_l = 1 if lang else 0
         header = [('language', '#language: fr')] if lang else []
@@ -170,7 +173,14 @@ def gen_feature(budget):
                 for desc, c2 in gen_desc(budget - 1 - c_l - c0 - c1):
                     b3 = budget - 1 - c_l - c0 - c1 - c2
                     for bg, c3 in gen_opt(gen_background, b3):
+                        outer += 1
+                        if outer % nshards != shard:
+                            continue
+                        si = 0
                         for scs, c4 in gen_list(gen_scenario, b3 - c3, 3):
+                            si += 1
+                            if si % ninner != inner:
+                                continue
                             for rules, c5 in gen_list(gen_rule, b3 - c3 - c4, 2):
                                 f = M.feature('f', ([bg] if bg else []) + scs + rules, tags=tags, desc=desc, language=lang or 'en',
                                               header=header, pre=noise)
@@ -236,12 +246,15 @@ def label(model):
     return model
 
 
+NINNER = 8
+
+
 def structure(budget, shard, nshards):
-    idx = 0
-    for f, trailer in gen_feature(budget):
-        if idx % nshards == shard:
-            yield label(f), trailer
-        idx += 1
+    """shard in 0..nshards-1; nshards must be a multiple of NINNER: outer shards x inner shards."""
+    nouter = max(1, nshards // NINNER)
+    ninner = nshards // nouter
+    for f, trailer in gen_feature(budget, shard // ninner, nouter, shard % ninner, ninner):
+        yield label(f), trailer
 
 
 # ---------------------------------------------------------------------------
@@ -452,16 +465,19 @@ def job_variants(module, base_index, k, shard, nshards):
 def run_families(ctx, module, n_quick, n_thorough, k2_bases_quick):
     ns = 16
     N = ctx.pick(n_quick, n_thorough)
-    for n in range(3, N + 1):
-        # iterate the bound; level n re-enumerates the smaller documents too (cheap) so each level is self-contained
-        if n < N and n < n_quick:
-            continue
-        ctx.level('structure N<=%d' % n, [job_structure.job(module, n, s, ns) for s in range(ns)])
+    ctx.level('structure N<=%d' % N, [job_structure.job(module, N, s, 192) for s in range(192)])
     ctx.level('pairs of feature modules x arrangements x backgrounds', [job_pairs.job(module, s, ns) for s in range(ns)])
     nb = len(base_documents())
     ctx.level('deviations k<=1', [job_variants.job(module, b, 1, 0, 1) for b in range(nb)])
     bases = k2_bases_quick if ctx.quick else list(range(nb))
     ctx.level('deviations k<=2 (bases %s)' % bases, [job_variants.job(module, b, 2, s, ns) for b in bases for s in range(ns)])
+
+
+def run_deep(ctx, module, n=8):
+    """Thorough tier only, last level of a check: the next structure bound (about 4.1 million models for n = 8).  If the
+    budget runs out the level is reported as not completed and the run is not called exhaustive."""
+    if not ctx.quick:
+        ctx.level('structure N<=%d' % n, [job_structure.job(module, n, s, 384) for s in range(384)])
 
 
 # ---------------------------------------------------------------------------
